@@ -66,6 +66,9 @@ type gval struct {
 	Ty  int // dynamic type id, 0 for nil
 	Coq string
 	Str string
+	// NotAny: not offered to `any`-typed keys (float32 values whose float64 widening prints
+	// differently: slog stores a float32 as float64, the reference renderings are the float32's)
+	NotAny bool
 }
 
 func rInt(ty int, v int64, gv any) gval {
@@ -80,6 +83,7 @@ func rF64(ty int, f float64, gv any) gval {
 func rF32(f float32) gval {
 	return gval{V: f, Ty: tyFloat32, Coq: fmt.Sprintf("(RFlt %s %s false)", cN(tyFloat32), cZu(uint64(math.Float32bits(f)))), Str: fmt.Sprintf("float32(%v)", f)}
 }
+func notAny(v gval) gval { v.NotAny = true; return v }
 func rComp(ty int, cmp bool, gv any) gval {
 	return gval{V: gv, Ty: ty, Coq: fmt.Sprintf("(RComp %s %s %s)", cN(ty), cBool(cmp), cStr(fmt.Sprintf("%#v", gv))), Str: fmt.Sprintf("%#v", gv)}
 }
@@ -130,6 +134,11 @@ func valuePool() []gval {
 		rComp(tyR, true, R{"a", 1}), rComp(tyR, false, R{"a", []int{1}}), rComp(tyR, false, R{"a", []int{2}}),
 		rInt(tyLogLevel, 4, slog.LevelWarn), rInt(tyLogLevel, 8, slog.LevelError),
 		rStr(tyString, "l1\nl2", "l1\nl2"), rComp(tyP, true, P{3, "two\nlines"}),
+		// appended later (indexes above are referred to by corpus cases)
+		notAny(rF32(math.MaxFloat32)), notAny(rF32(-math.MaxFloat32)), notAny(rF32(0.1)), rF32(16777217), notAny(rF32(math.SmallestNonzeroFloat32)),
+		rInt(tyInt8, -128, int8(-128)), rInt(tyInt8, 127, int8(127)), rInt(tyInt64, 1<<53, int64(1<<53)), rInt(tyInt64, -(1 << 53), int64(-(1 << 53))),
+		rInt(tyUint64, 1<<53, uint64(1<<53)), rInt(tyUint64, 65536, uint64(65536)), rInt(tyMyInt, -7, MyInt(-7)),
+		rF64(tyMyF64, 0.1, MyF64(0.1)), rF64(tyFloat64, 1e300, 1e300), rF64(tyFloat64, 5e-324, 5e-324), rF64(tyFloat64, 0.1, 0.1),
 	}
 }
 
@@ -233,7 +242,7 @@ const nBaseKeys = 32
 func valuesFor(k keyEntry, pool []gval) []int {
 	var out []int
 	for i, v := range pool {
-		if k.Ty == 0 || v.Ty == k.Ty {
+		if (k.Ty == 0 && !v.NotAny) || v.Ty == k.Ty {
 			out = append(out, i)
 		}
 	}
